@@ -29,7 +29,8 @@ def main(wt, pid, sid):
         pkg = "./" + os.path.dirname(rel) + "/"
         b = sh("go build ./...", scratch)
         assert b.returncode == 0, "does not compile: " + b.stderr[-500:]
-        w = sh(f"go test -vet=off -count=1 -run 'Mutant|Demo|ZZ|zz' {pkg}", scratch)
+        race = "-race " if os.environ.get("INGEST_RACE") else ""
+        w = sh(f"go test {race}-vet=off -count=1 -run 'Mutant|Demo|ZZ|zz' {pkg}", scratch)
         with_fail = w.returncode != 0
         # full suite without the demo file
         os.rename(os.path.join(scratch, rel), os.path.join(scratch, rel + ".off"))
@@ -37,7 +38,7 @@ def main(wt, pid, sid):
         suite_ok = s.stdout.strip() == ""
         os.rename(os.path.join(scratch, rel + ".off"), os.path.join(scratch, rel))
         sh(f"git apply -R {patch}", scratch)
-        wo = sh(f"go test -vet=off -count=1 -run 'Mutant|Demo|ZZ|zz' {pkg}", scratch)
+        wo = sh(f"go test {race}-vet=off -count=1 -run 'Mutant|Demo|ZZ|zz' {pkg}", scratch)
         without_pass = wo.returncode == 0
         print(json.dumps(dict(sid=sid, compiles=True, suite_passes=suite_ok, demo_fails_with=with_fail, demo_passes_without=without_pass, suite_failures=s.stdout.strip()[:300])))
         if not (suite_ok and with_fail and without_pass):
